@@ -6,7 +6,8 @@
 //! collection during the claim x how the guard ends.
 
 use bump_scope::settings::{BumpAllocatorSettings, BumpSettings};
-use bump_scope::{BaseAllocator, Bump, BumpString, BumpVec};
+use bump_scope::traits::{BumpAllocatorCore, BumpAllocatorCoreScope, BumpAllocatorTyped, BumpAllocatorTypedScope};
+use bump_scope::{BaseAllocator, Bump, BumpString, BumpVec, WithoutDealloc, WithoutShrink};
 use std::panic::{AssertUnwindSafe, catch_unwind};
 use vcore::slab::{self, SlabCfg, SlabZ};
 
@@ -425,6 +426,194 @@ where
 // opening scopes on the claimed original (the library trips one of its own debug assertions there)
 const LEAK_OPS: [&str; 6] = ["try_by_value", "by_value", "try_alloc_try_with_mut", "try_alloc_iter_mut", "reset", "reset_to_start"];
 
+
+// ---- every allocating method x every kind of shared handle to the claimed original ----------------------------
+
+pub const RECVS: [&str; 7] = ["bump", "scope", "dyn_core", "dyn_scope", "without_dealloc", "without_shrink", "ref_ref"];
+pub const TYPED_METHODS: [&str; 8] = ["allocate_layout", "allocate_sized", "allocate_slice", "allocate_slice_for", "prepare_slice_allocation", "prepare_slice_allocation_rev", "reserve", "allocator_allocate"];
+pub const SCOPE_METHODS: [&str; 18] = [
+    "alloc",
+    "alloc_with",
+    "alloc_default",
+    "alloc_uninit",
+    "alloc_slice_move",
+    "alloc_slice_copy",
+    "alloc_slice_clone",
+    "alloc_slice_fill",
+    "alloc_slice_fill_with",
+    "alloc_uninit_slice",
+    "alloc_uninit_slice_for",
+    "alloc_str",
+    "alloc_fmt",
+    "alloc_cstr",
+    "alloc_cstr_from_str",
+    "alloc_cstr_fmt",
+    "alloc_iter",
+    "alloc_iter_exact",
+];
+
+/// Some(true) = the call failed the documented way (Err / unwinding panic), Some(false) = it returned a value, None = no such twin
+#[allow(dropping_copy_types)]
+fn typed_call<B: BumpAllocatorTyped + ?Sized>(b: &B, m: &str, try_: bool) -> Option<bool> {
+    let layout = std::alloc::Layout::from_size_align(24, 8).unwrap();
+    let pan = |f: &mut dyn FnMut()| -> bool {
+        let r = catch_unwind(AssertUnwindSafe(|| f()));
+        if r.is_err() {
+            let _ = vcore::crash::take_last_panic();
+        }
+        r.is_err()
+    };
+    Some(match (m, try_) {
+        ("allocate_layout", true) => b.try_allocate_layout(layout).is_err(),
+        ("allocate_layout", false) => pan(&mut || drop(b.allocate_layout(layout))),
+        ("allocate_sized", true) => b.try_allocate_sized::<u64>().is_err(),
+        ("allocate_sized", false) => pan(&mut || drop(b.allocate_sized::<u64>())),
+        ("allocate_slice", true) => b.try_allocate_slice::<u64>(3).is_err(),
+        ("allocate_slice", false) => pan(&mut || drop(b.allocate_slice::<u64>(3))),
+        ("allocate_slice_for", true) => b.try_allocate_slice_for::<u8>(&[1, 2, 3]).is_err(),
+        ("allocate_slice_for", false) => pan(&mut || drop(b.allocate_slice_for::<u8>(&[1, 2, 3]))),
+        ("prepare_slice_allocation", true) => b.try_prepare_slice_allocation::<u64>(2).is_err(),
+        ("prepare_slice_allocation", false) => pan(&mut || drop(b.prepare_slice_allocation::<u64>(2))),
+        ("prepare_slice_allocation_rev", true) => b.try_prepare_slice_allocation_rev::<u64>(2).is_err(),
+        ("prepare_slice_allocation_rev", false) => pan(&mut || drop(b.prepare_slice_allocation_rev::<u64>(2))),
+        ("reserve", true) => b.try_reserve(8).is_err(),
+        ("reserve", false) => pan(&mut || b.reserve(8)),
+        ("allocator_allocate", true) => bump_scope::alloc::Allocator::allocate(b, layout).is_err(),
+        _ => return None,
+    })
+}
+
+#[allow(dropping_references, dropping_copy_types)]
+fn scope_call<'a, C: BumpAllocatorTypedScope<'a>>(c: C, m: &str, try_: bool) -> Option<bool> {
+    let pan = |f: &mut dyn FnMut()| -> bool {
+        let r = catch_unwind(AssertUnwindSafe(|| f()));
+        if r.is_err() {
+            let _ = vcore::crash::take_last_panic();
+        }
+        r.is_err()
+    };
+    let text = String::from("a string that owns memory");
+    let texts = [text.clone(), text.clone()];
+    Some(match (m, try_) {
+        ("alloc", true) => c.try_alloc(7u64).is_err(),
+        ("alloc", false) => pan(&mut || drop(c.alloc(7u64))),
+        ("alloc_with", true) => c.try_alloc_with(|| 7u64).is_err(),
+        ("alloc_with", false) => pan(&mut || drop(c.alloc_with(|| 7u64))),
+        ("alloc_default", true) => c.try_alloc_default::<u64>().is_err(),
+        ("alloc_default", false) => pan(&mut || drop(c.alloc_default::<u64>())),
+        ("alloc_uninit", true) => c.try_alloc_uninit::<u64>().is_err(),
+        ("alloc_uninit", false) => pan(&mut || drop(c.alloc_uninit::<u64>())),
+        ("alloc_slice_move", true) => c.try_alloc_slice_move([1u32, 2]).is_err(),
+        ("alloc_slice_move", false) => pan(&mut || drop(c.alloc_slice_move([1u32, 2]))),
+        ("alloc_slice_copy", true) => c.try_alloc_slice_copy(&[1u8, 2, 3]).is_err(),
+        ("alloc_slice_copy", false) => pan(&mut || drop(c.alloc_slice_copy(&[1u8, 2, 3]))),
+        ("alloc_slice_clone", true) => c.try_alloc_slice_clone(&texts).is_err(),
+        ("alloc_slice_clone", false) => pan(&mut || drop(c.alloc_slice_clone(&texts))),
+        ("alloc_slice_fill", true) => c.try_alloc_slice_fill(3, 7u8).is_err(),
+        ("alloc_slice_fill", false) => pan(&mut || drop(c.alloc_slice_fill(3, 7u8))),
+        ("alloc_slice_fill_with", true) => c.try_alloc_slice_fill_with(3, || 7u8).is_err(),
+        ("alloc_slice_fill_with", false) => pan(&mut || drop(c.alloc_slice_fill_with(3, || 7u8))),
+        ("alloc_uninit_slice", true) => c.try_alloc_uninit_slice::<u64>(2).is_err(),
+        ("alloc_uninit_slice", false) => pan(&mut || drop(c.alloc_uninit_slice::<u64>(2))),
+        ("alloc_uninit_slice_for", true) => c.try_alloc_uninit_slice_for(&[1u8, 2]).is_err(),
+        ("alloc_uninit_slice_for", false) => pan(&mut || drop(c.alloc_uninit_slice_for(&[1u8, 2]))),
+        ("alloc_str", true) => c.try_alloc_str("abc").is_err(),
+        ("alloc_str", false) => pan(&mut || drop(c.alloc_str("abc"))),
+        ("alloc_fmt", true) => c.try_alloc_fmt(format_args!("{}", 12345)).is_err(),
+        ("alloc_fmt", false) => pan(&mut || drop(c.alloc_fmt(format_args!("{}", 12345)))),
+        ("alloc_cstr", true) => c.try_alloc_cstr(c"ab").is_err(),
+        ("alloc_cstr", false) => pan(&mut || drop(c.alloc_cstr(c"ab"))),
+        ("alloc_cstr_from_str", true) => c.try_alloc_cstr_from_str("ab").is_err(),
+        ("alloc_cstr_from_str", false) => pan(&mut || drop(c.alloc_cstr_from_str("ab"))),
+        ("alloc_cstr_fmt", true) => c.try_alloc_cstr_fmt(format_args!("{}", 12345)).is_err(),
+        ("alloc_cstr_fmt", false) => pan(&mut || drop(c.alloc_cstr_fmt(format_args!("{}", 12345)))),
+        ("alloc_iter", true) => c.try_alloc_iter([1u32, 2]).is_err(),
+        ("alloc_iter", false) => pan(&mut || drop(c.alloc_iter([1u32, 2]))),
+        ("alloc_iter_exact", true) => c.try_alloc_iter_exact([1u32, 2]).is_err(),
+        ("alloc_iter_exact", false) => pan(&mut || drop(c.alloc_iter_exact([1u32, 2]))),
+        _ => return None,
+    })
+}
+
+/// Ok(true) = the call failed as documented and nothing moved
+fn recv_case<St>(recv: &str, m: &str, try_: bool, prelude: u8) -> Result<bool, String>
+where
+    St: BumpAllocatorSettings + 'static,
+    SlabZ: BaseAllocator<St::GuaranteedAllocated>,
+{
+    slab::select(0);
+    slab::reset(0, SlabCfg::default());
+    let _ = vcore::crash::take_last_panic();
+    let bump: Bump<SlabZ, St> = Bump::new_in(SlabZ);
+    let old = bump.alloc_slice_fill(5, 0xA5u8).into_raw();
+    let guard = bump.claim();
+    let gblock = match prelude {
+        0 => None,
+        1 => Some((guard.alloc_slice_fill(9, 0xE7u8).into_raw(), 9usize)),
+        _ => Some((guard.alloc_slice_fill(3000, 0xE7u8).into_raw(), 3000usize)),
+    };
+    let before = {
+        let s = guard.stats();
+        (s.allocated(), s.count(), s.remaining(), s.size())
+    };
+    let calls = slab::with_slab(0, |s| s.calls);
+    let typed = TYPED_METHODS.contains(&m);
+    let failed: Option<bool> = match (recv, typed) {
+        ("bump", true) => typed_call(&bump, m, try_),
+        ("bump", false) => scope_call(&bump, m, try_),
+        ("scope", true) => typed_call(bump.as_scope(), m, try_),
+        ("scope", false) => scope_call(bump.as_scope(), m, try_),
+        ("dyn_core", true) => typed_call::<dyn BumpAllocatorCore>(&bump, m, try_),
+        ("dyn_core", false) => None,
+        ("dyn_scope", true) => typed_call::<dyn BumpAllocatorCoreScope<'_>>(bump.as_scope(), m, try_),
+        ("dyn_scope", false) => {
+            let d: &dyn BumpAllocatorCoreScope<'_> = bump.as_scope();
+            scope_call(d, m, try_)
+        }
+        ("without_dealloc", true) => typed_call(&WithoutDealloc(&bump), m, try_),
+        ("without_dealloc", false) => scope_call(WithoutDealloc(&bump), m, try_),
+        ("without_shrink", true) => typed_call(&WithoutShrink(&bump), m, try_),
+        ("without_shrink", false) => scope_call(WithoutShrink(&bump), m, try_),
+        ("ref_ref", true) => typed_call(&&bump, m, try_),
+        (_, _) => scope_call(&&bump, m, try_),
+    };
+    let Some(failed) = failed else { return Ok(false) };
+    let twin = if try_ { "the try_ twin" } else { "the panicking twin" };
+    if !failed {
+        return Err(format!("{twin} of {m} through {recv} returned normally on a claimed allocator"));
+    }
+    let after = {
+        let s = guard.stats();
+        (s.allocated(), s.count(), s.remaining(), s.size())
+    };
+    if after != before {
+        return Err(format!("{twin} of {m} through {recv} changed the claimed arena: (allocated, chunks, remaining, size) {before:?} -> {after:?}"));
+    }
+    if slab::with_slab(0, |s| s.calls) != calls {
+        return Err(format!("{twin} of {m} through {recv} reached the base allocator"));
+    }
+    if !bump.is_claimed() {
+        return Err(format!("{twin} of {m} through {recv} ended the claim"));
+    }
+    drop(guard);
+    if bump.is_claimed() {
+        return Err("still claimed after the guard was dropped".into());
+    }
+    let again = bump.try_alloc(0x1122334455667788u64).map_err(|_| "allocation after the claim failed".to_string())?;
+    if *again != 0x1122334455667788 {
+        return Err("allocation after the claim reads back wrong".into());
+    }
+    if unsafe { std::slice::from_raw_parts(old.as_ptr() as *const u8, 5) } != [0xA5; 5] {
+        return Err("data allocated before the claim changed".into());
+    }
+    if let Some((p, n)) = gblock {
+        if unsafe { std::slice::from_raw_parts(p.as_ptr() as *const u8, n) }.iter().any(|&b| b != 0xE7) {
+            return Err("data allocated through the guard changed".into());
+        }
+    }
+    Ok(true)
+}
+
 pub fn run_one(id: &str) -> Option<Outcome> {
     run(Some(id)).into_iter().next()
 }
@@ -455,6 +644,34 @@ fn run(only: Option<&str>) -> Vec<Outcome> {
                 Err(_) => Some(format!("unexpected panic: {}", vcore::crash::take_last_panic().unwrap_or_default())),
             };
             out.push(Outcome { id, msg, nontrivial: true });
+        }
+    }
+    for ci in 0..4usize {
+        for recv in RECVS {
+            for m in TYPED_METHODS.iter().chain(SCOPE_METHODS.iter()) {
+                for try_ in [true, false] {
+                    for prelude in 0..3u8 {
+                        let id = format!("claimrecv:{ci}:{recv}:{m}:{}:{prelude}", if try_ { "try" } else { "panicking" });
+                        if only.is_some_and(|o| o != id) {
+                            continue;
+                        }
+                        vcore::crash::set_inflight(format!("replayargs=[--claimcoll {id}]"));
+                        let r = catch_unwind(AssertUnwindSafe(|| match ci {
+                            0 => recv_case::<S<1, true>>(recv, m, try_, prelude),
+                            1 => recv_case::<S<1, false>>(recv, m, try_, prelude),
+                            2 => recv_case::<S<8, true>>(recv, m, try_, prelude),
+                            _ => recv_case::<S<16, false>>(recv, m, try_, prelude),
+                        }));
+                        vcore::crash::clear_inflight();
+                        let (msg, nontrivial) = match r {
+                            Ok(Ok(f)) => (None, f),
+                            Ok(Err(m)) => (Some(m), true),
+                            Err(_) => (Some(format!("unexpected panic: {}", vcore::crash::take_last_panic().unwrap_or_default())), true),
+                        };
+                        out.push(Outcome { id, msg, nontrivial });
+                    }
+                }
+            }
         }
     }
     for ci in 0..4usize {
